@@ -51,6 +51,9 @@ func (r *RateLimitedTokenRequest) Marshal() []byte {
 }
 
 func (r *RateLimitedTokenRequest) Unmarshal(data []byte) bool {
+	// Drop the cached encoding of any value the object held before.
+	r.raw = nil
+
 	s := cryptobyte.String(data)
 
 	var tokenType uint16
